@@ -375,7 +375,7 @@ def run_c07(ctx):
                 cand += 1
             else:
                 sens.setdefault(n["drop"], set()).update(n["differing"])
-        dead = sorted(set(meta[0]["codesorted"]) - set(sens))
+        dead = sorted(set(meta[0]["drops"]) - set(sens))
         if dead:
             raise vlib.Infra("the model is insensitive to dropping the sort at %s: the invariant would be vacuous there" % dead)
         ctx.extra["model_sites_sensitive"] = {k: sorted(v) for k, v in sorted(sens.items())}
@@ -412,3 +412,323 @@ def run_c07(ctx):
         ctx.extra["binding_selftest"] = "rejected" if c07_components(results[0]["sample"][l], o[l]) else "MISSED"
         if ctx.extra["binding_selftest"] != "rejected":
             raise vlib.Infra("binding self-test failed")
+
+
+# =============================================================================================== C37
+import shlex
+
+CHARS = {"plain": "", "space": " ", "semi": ";", "dollar": "$", "amp": "&", "lparen": "(", "squote": "'"}
+
+
+def adv(ch):
+    return (CHARS[ch] + "x") if ch != "plain" else ""
+
+
+def c37_group_key(case):
+    c = case["c"]
+    return json.dumps([c["kind"], c["place"], c["pchar"], c["ochar"]])
+
+
+class C37Case:
+    """Rendering of one spec case: names, tokens, BUILD fragments. Cases that differ only in role / sequence / label form share
+    one dependency (group g); every case has its own consumer target `p<i>` writing `res<i>`."""
+
+    def __init__(self, i, g, case):
+        self.i, self.g, self.case = i, g, case
+        c = case["c"]
+        self.c = c
+        pa, oa = adv(c["pchar"]), adv(c["ochar"])
+        self.cp = "c%d" % g + (pa if c["place"] == "same" else "")
+        self.dp = {"same": self.cp, "other": "d%d" % g + pa, "sub": "%s/sub%s" % (self.cp, pa), "root": ""}[c["place"]]
+        self.dname = "dep%d" % g if c["place"] == "root" else "dep"
+        self.name = "p%d" % i
+        self.label = "//%s:%s" % (self.cp, self.name)
+        self.outs = {o: "k%d%s%s" % (g, o, oa) + (".txt" if o == "f" else "") for o in case["outs"]}
+        self.tok = {o: ("# " if case["binary"] else "") + "T%d-%s" % (g, o) for o in case["outs"]}
+        self.tok["ep"] = "# T%d-ep" % g
+
+    def dep_label(self):
+        return (":" + self.dname) if self.c["local"] else "//%s:%s" % (self.dp, self.dname)
+
+    def arg(self):
+        if self.c["kind"] == "file":
+            return self.outs["f"]
+        return self.dep_label() + ("|run" if self.c["ep"] else "")
+
+    def dep_build(self):
+        k = self.c["kind"]
+        if k == "file":
+            return ""
+        vis = 'visibility = ["PUBLIC"]'
+        if k == "entry":
+            od = self.outs["od"]
+            run = od + "/bin/run"
+            cmd = "mkdir -p %s; printf '#!/bin/sh\\n%s\\n' > %s; chmod +x %s" % (shlex.quote(od + "/bin"), self.tok["ep"], shlex.quote(run), shlex.quote(run))
+            return ('genrule(name = %s, outs = [%s], binary = True, entry_points = {"run": %s}, cmd = %s, %s)\n'
+                    % (lit(self.dname), lit(od), lit(run), lit(cmd), vis))
+        names = self.case["outs"]
+        if k == "binary":
+            cmd = "printf '#!/bin/sh\\n%s\\n' > %s" % (self.tok["o1"], shlex.quote(self.outs["o1"]))
+        else:
+            cmd = "; ".join("printf '%%s\\n' %s > %s" % (shlex.quote(self.tok[o]), shlex.quote(self.outs[o])) for o in names)
+        if k == "named":
+            outs = '{"x": [%s], "y": [%s, %s]}' % tuple(lit(self.outs[o]) for o in names)
+        else:
+            outs = "[%s]" % ", ".join(lit(self.outs[o]) for o in names)
+        return 'genrule(name = %s, outs = %s, %scmd = %s, %s)\n' % (lit(self.dname), outs, "binary = True, " if k == "binary" else "", lit(cmd), vis)
+
+    def consumer_build(self, root):
+        c = self.c
+        seq = "$(%s %s)" % (c["seq"], self.arg())
+        probe = ("set -- " + seq + "; { printf 'N %s\\n' \"$#\"; for p in \"$@\"; do "
+                 "printf 'W %s\\n' \"$(printf '%s' \"$p\" | od -An -v -tx1 | tr -d ' \\n')\"; "
+                 "for b in . " + shlex.quote(root) + "; do case \"$p\" in /*) q=\"$p\";; *) q=\"$b/$p\";; esac; "
+                 "if test -d \"$q\"; then printf 'D %s\\n' \"$(ls -A \"$q\" | od -An -v -tx1 | tr -d ' \\n')\"; "
+                 "elif test -e \"$q\"; then if test -x \"$q\"; then x=x; else x=-; fi; printf 'F %s %s\\n' \"$x\" \"$(tail -n 1 \"$q\")\"; "
+                 "else printf 'M\\n'; fi; done; done; } > \"$OUT\"")
+        attr = {"src": "srcs", "dep": "deps", "tool": "tools"}.get(c["role"])
+        ref = self.outs["f"] if c["kind"] == "file" else self.dep_label()
+        extra = "%s = [%s], " % (attr, lit(ref)) if attr else ""
+        return 'genrule(name = %s, outs = ["res%d"], %scmd = %s)\n' % (lit(self.name), self.i, extra, lit(probe))
+
+    def dep_output_paths(self, root):
+        if self.c["kind"] == "file":
+            return []
+        d = os.path.join(root, "plz-out", "bin" if self.case["binary"] else "gen", self.dp)
+        return [os.path.join(d, n) for n in self.outs.values()]
+
+    def res_path(self, root):
+        return os.path.join(root, "plz-out", "gen", self.cp, "res%d" % self.i)
+
+
+def c37_render(root, rcs):
+    builds = {}
+    deps_done = set()
+    for rc_ in rcs:
+        builds[rc_.cp] = builds.get(rc_.cp, "") + rc_.consumer_build(root)
+        if rc_.g in deps_done:
+            continue
+        deps_done.add(rc_.g)
+        if rc_.c["kind"] == "file":
+            write(os.path.join(root, rc_.cp, rc_.outs["f"]), rc_.tok["f"] + "\n")
+        else:
+            builds[rc_.dp] = builds.get(rc_.dp, "") + rc_.dep_build()
+    for pkg, text in builds.items():
+        write(os.path.join(root, pkg, "BUILD"), text)
+    return builds
+
+
+def unhex(h):
+    return bytes.fromhex(h).decode("utf8", "replace")
+
+
+def c37_parse(text):
+    lines = text.splitlines()
+    if not lines or not lines[0].startswith("N "):
+        return None
+    n = int(lines[0][2:])
+    words = []
+    i = 1
+    while i < len(lines):
+        if not lines[i].startswith("W "):
+            return None
+        w = dict(word=unhex(lines[i][2:]), st=[])
+        for l in lines[i + 1:i + 3]:
+            if l.startswith("D "):
+                w["st"].append(("D", unhex(l[2:]).split("\n")))
+            elif l.startswith("F "):
+                w["st"].append(("F", l[2], l[4:]))
+            else:
+                w["st"].append(("M",))
+        words.append(w)
+        i += 3
+    return dict(n=n, words=words)
+
+
+def c37_judge(rc_, obs):
+    """obs: dict(built, rejected_msg, res). Returns None if the observation satisfies the spec's Expect, else a reason."""
+    exp = rc_.case["expect"]
+    if exp["err"]:
+        return None if not obs["built"] else "accepted: expanded to %s" % [w["word"] for w in (obs["res"] or {}).get("words", [])]
+    if not obs["built"]:
+        return "build failed where the sequence must expand"
+    res = obs["res"]
+    if res is None:
+        return "probe output unreadable"
+    if res["n"] != len(exp["words"]):
+        return "%d shell words %s for %d path(s)" % (res["n"], [w["word"] for w in res["words"]], len(exp["words"]))
+    free = list(res["words"])
+    for e in exp["words"]:
+        hit = None
+        for w in free:
+            st = w["st"][1 if e["rootrel"] else 0]
+            if e["what"] == "dir":
+                ok = st[0] == "D" and all(n.split("/")[0] in st[1] for n in rc_.outs.values())
+            else:
+                ok = st[0] == "F" and st[2] == rc_.tok[e["what"]] and (st[1] == "x" or not e["exec"])
+            if ok:
+                hit = w
+                break
+        if hit is None:
+            return "no word names %s (%s): words %s" % (e["what"], "from the repository root" if e["rootrel"] else "from the build directory",
+                                                      [(w["word"], [s[0] for s in w["st"]]) for w in res["words"]])
+        free.remove(hit)
+    return None
+
+
+def c37_signature(rc_, reason):
+    c, cls = rc_.c, rc_.case["cls"]
+    if cls != "agree":
+        return "C37 " + cls
+    ch = c["pchar"] if c["pchar"] != "plain" else c["ochar"]
+    if rc_.case["expect"]["err"]:
+        return "C37 rejection-missing why=%s seq=%s kind=%s" % (rc_.case["expect"]["why"], c["seq"], c["kind"])
+    return "C37 wrong-expansion seq=%s kind=%s role=%s place=%s%s" % (c["seq"], c["kind"], c["role"], c["place"],
+                                                                   "" if ch == "plain" else " char=" + ch)
+
+
+def c37_batch(root, home, rcs):
+    """Builds the consumers of the given cases in one invocation; returns (rc, output)."""
+    if not rcs:
+        return 0, ""
+    rc, out, err = plz(root, home, ["build", "--keep_going"] + [r.label for r in rcs], threads=6, timeout=900)
+    return rc, out + "\n" + err
+
+
+def c37_observe(root, r, output):
+    p = r.res_path(root)
+    built = os.path.exists(p)
+    res = c37_parse(open(p, errors="replace").read()) if built else None
+    return dict(built=built, res=res, rejected_by_plz=("Rule %s can't" % r.label) in output)
+
+
+def c37_run_repo(ctx, idx, cases):
+    base = os.path.join(ctx.scratch, "x%d" % idx)
+    root, home = new_repo(base)
+    rcs = [C37Case(i, g, c) for i, g, c in cases]
+    c37_render(root, rcs)
+    ok = [r for r in rcs if not r.case["expect"]["err"]]
+    bad = [r for r in rcs if r.case["expect"]["err"]]
+    results = []
+    invocations = 0
+    for group in (ok, bad):
+        if not group:
+            continue
+        rc, output = c37_batch(root, home, group)
+        invocations += 1
+        if rc == -9:
+            raise vlib.Infra("plz build --keep_going timed out on generated C37 cases:\n%s" % output[-2000:])
+        obs = {r.i: c37_observe(root, r, output) for r in group}
+        # the dependencies themselves must have built (else the harness, not plz, is at fault)
+        for r in group:
+            if r.c["role"] != "none":
+                missing = [p for p in r.dep_output_paths(root) if not os.path.lexists(p)]
+                if missing:
+                    raise vlib.Infra("dependency of case %s did not build (harness error): %s\n%s" % (r.c, missing, output[-3000:]))
+        allbuilt = all(o["built"] for o in obs.values())
+        if group is ok and allbuilt and rc != 0:
+            raise vlib.Infra("plz exits %d although every probe built:\n%s" % (rc, output[-2000:]))
+        for r in group:
+            results.append((r, obs[r.i], rc))
+    # individual confirmation of deviations: the case alone, its own exit status and output
+    out = []
+    confirm = {}
+    for r, o, rc in results:
+        reason = c37_judge(r, o)
+        single = None
+        if reason is not None:
+            sig = c37_signature(r, reason)
+            if confirm.get(sig, 0) < 2:
+                confirm[sig] = confirm.get(sig, 0) + 1
+                if os.path.exists(r.res_path(root)):
+                    os.remove(r.res_path(root))
+                rc1, so, se = plz(root, home, ["build", r.label], timeout=300)
+                invocations += 1
+                o1 = c37_observe(root, r, so + "\n" + se)
+                single = dict(rc=rc1, output=(so + "\n" + se)[-1500:], built=o1["built"])
+                reason1 = c37_judge(r, o1)
+                if reason1 is None or (rc1 == 0) != o1["built"]:
+                    raise vlib.Infra("case %s deviates in the batch (%s) but not alone (rc=%d built=%s): harness trouble\n%s"
+                                     % (r.c, reason, rc1, o1["built"], single["output"]))
+        out.append(dict(i=r.i, g=r.g, reason=reason, obs=o, single=single,
+                        build={p: open(os.path.join(root, p, "BUILD")).read() for p in {r.cp, r.dp}} if reason else None))
+    shutil.rmtree(base, ignore_errors=True)
+    return out, invocations
+
+
+CLAIM37 = dict(
+    category="model_checking", design_ref="DESIGN.md §4 C37",
+    text="CmdExpand.tla is the case table as a state machine: dependency kind (one / several / named outputs, binary, entry point, plain file) x role "
+         "(srcs, deps, tools, not a dependency) x package place (same, other, subdirectory, repository root) x label form x one adversarial character "
+         "(space ; $ & ( ') in package or output names x the seven sequences. Expect(c) says Error or which file each shell word must name and from "
+         "where it is read (build directory, or repository root for the out_ forms); Algo(c) is replaceSequence/fileDestination/quote as written plus a "
+         "model of shell word splitting; TLC checks that every disagreement has a named reason and that plain label cases agree. Every case is rendered "
+         "into a scratch repository whose consumer genrule records, at run time, the number of words, each word and what it names (content token, "
+         "directory listing, exec bit) from both bases; the build must fail iff the spec says Error, otherwise the words must name exactly the expected files.",
+    note="Bounded: one sequence per command, one adversarial character per case (quick: on a reduced table); $(out_exe), $(hash), $(worker), test commands, "
+         "named-output annotations (label|name) and target names with metacharacters are not covered; a word is judged by the file it names, not by its spelling; "
+         "cases are built in --keep_going batches and every deviating class is confirmed by building the case alone; trusted: the probe command, bash.",
+    technique="TLA+ spec CmdExpand.tla (property table vs code-shaped expansion + shell-splitting model) checked with TLC; every enumerated case replayed "
+              "e2e into the real plz binary with a probing command")
+
+
+@register("C37", claim=CLAIM37)
+def run_c37(ctx):
+    vlib.build_plz()
+    ctx.rule = ("every case of the CmdExpand.tla table (TLC initial states) rendered as dependency + consumer genrule in a scratch repository and built by the "
+                "real plz; non-trivial = the sequence names a declared dependency (role != none); distinct by case record")
+    ctx.assumptions = ["commands run under bash as plz starts them; a word is correct if it names the expected file (by content token) from the command's "
+                       "working directory (out_ forms: from the repository root), however it is spelled",
+                       "`rejected with an error` = the build of the consumer fails; an Error case that builds is a violation whatever it expanded to",
+                       "a plain file name that is not in srcs is `not a dependency` (the statement makes no exception for files)",
+                       "the order of the words of a plural form is not checked"]
+    if ctx.replay_only is not None:
+        cases = [d["case"] for d in ctx.replay_only]
+    else:
+        r = vlib.tlc(ctx, "CmdExpand", "GEN_CmdExpand_q.cfg" if ctx.quick else "GEN_CmdExpand_t.cfg", workers=4)
+        cases = r.cases
+        ctx.exhaustive = True
+    cases = sorted(cases, key=lambda c: json.dumps(c, sort_keys=True))
+    rng = random.Random(ctx.seed)
+    groups = {}
+    for i, c in enumerate(cases):
+        groups.setdefault(c37_group_key(c), []).append(i)
+    gkeys = sorted(groups)
+    gid = {k: n for n, k in enumerate(gkeys)}
+    rng.shuffle(gkeys)
+    chunks, cur = [], []
+    for k in gkeys:                       # one dependency per group; about 45 cases per scratch repository
+        cur += [(i, gid[k], cases[i]) for i in groups[k]]
+        if len(cur) >= 45:
+            chunks.append(cur)
+            cur = []
+    if cur:
+        chunks.append(cur)
+    with ThreadPoolExecutor(max_workers=POOL) as ex:
+        futs = [ex.submit(c37_run_repo, ctx, k, ch) for k, ch in enumerate(chunks)]
+        done = [f.result() for f in futs]
+    drift = {}
+    nomsg = []
+    inv = 0
+    for outs, n in done:
+        inv += n
+        for o in outs:
+            case = cases[o["i"]]
+            c = case["c"]
+            ctx.count(json.dumps(c, sort_keys=True), nontrivial=c["role"] != "none",
+                      sample=dict(case=c, expect=case["expect"], observed=o["obs"]) if c["kind"] == "named" and c["seq"] == "locations" and c["role"] == "src" else None)
+            if o["reason"] is not None:
+                r = C37Case(o["i"], o["g"], case)
+                ctx.violation(c37_signature(r, o["reason"]), dict(case=case, reason=o["reason"], observed=o["obs"], alone=o["single"], build=o["build"]))
+            elif case["cls"] != "agree":
+                drift[case["cls"]] = drift.get(case["cls"], 0) + 1
+            elif case["expect"]["err"] and not o["obs"]["rejected_by_plz"]:
+                nomsg.append(c)
+    for k, v in sorted(drift.items()):
+        ctx.drift("%d case(s) the algorithm-level model expected to deviate (%s) satisfy the property" % (v, k))
+    if nomsg:
+        ctx.drift("%d Error case(s) failed to build without plz's `Rule ... can't ...` message (the model says plz rejects them itself); first: %s"
+                  % (len(nomsg), json.dumps(nomsg[0])))
+    ctx.traces_validated = len(cases)
+    ctx.extra["plz_invocations"] = inv
+    ctx.extra["cases_by_model_class"] = {k: sum(1 for c in cases if c["cls"] == k) for k in sorted({c["cls"] for c in cases})}
